@@ -162,8 +162,10 @@ impl Drop for Arena {
 
 /// Answers of the scripted `std::io::Write` at a choice point.
 #[derive(Clone, Copy, Debug, PartialEq, Eq)]
-pub enum WAns { All, One, AllButOne, Interrupted, Zero, Fail }
-pub const W_ALTS: [WAns; 5] = [WAns::One, WAns::AllButOne, WAns::Interrupted, WAns::Zero, WAns::Fail];
+pub enum WAns { All, One, AllButOne, Interrupted, Zero, Fail, Panic }
+pub const W_ALTS: [WAns; 6] = [WAns::One, WAns::AllButOne, WAns::Interrupted, WAns::Zero, WAns::Fail, WAns::Panic];
+/// message of the panic raised by alternative 5 (a writer that unwinds instead of returning)
+pub const WRITER_PANIC: &str = "scripted writer panic";
 
 /// A script maps choice-point index -> non-default answer.
 #[derive(Clone, Debug, Default)]
@@ -206,6 +208,7 @@ impl std::io::Write for ScriptWriter {
             WAns::Interrupted => Err(std::io::Error::new(std::io::ErrorKind::Interrupted, "scripted EINTR")),
             WAns::Zero => { if !buf.is_empty() { self.hard_fail = true; } Ok(0) }
             WAns::Fail => { self.hard_fail = true; Err(std::io::Error::new(std::io::ErrorKind::Other, "scripted failure")) }
+            WAns::Panic => { self.hard_fail = true; panic!("{}", WRITER_PANIC) }
         }
     }
     fn flush(&mut self) -> std::io::Result<()> {
